@@ -122,7 +122,10 @@ def model_b(case):
     if mc:
         events = [['Claim', 'in', ['Res'], [['a', spell, 'in'], ['b', spell, 'out']]],
                   ['Release', 'in', ['void'], [['b', spell, 'inout']]]] + events
-    doc += nest(itf_scope, [['interface', 'I', [['enum', 'Res', ['Ok', 'No']]], events]])
+    nested = [['enum', 'Res', ['Ok', 'No']]]
+    if case.get('nested'):
+        nested.append(['enum', 'X', ['Ok']])      # declared inside the referring interface itself
+    doc += nest(itf_scope, [['interface', 'I', nested, events]])
     direction = case.get('dir', 'provides')
     doc += nest(itf_scope, [['component', 'Comp', [['p', ['I'], direction, False]]]])
     return {'doc': doc, 'encapsulee': itf_scope + ['Comp'], 'file': 'M.dzn'}
@@ -259,6 +262,11 @@ def cases():
             for spell in SPELL_X:
                 yield {'kind': 'b', 'assign': list(assign), 'scope': scope, 'spell': spell}
                 yield {'kind': 'b', 'assign': list(assign), 'scope': scope, 'spell': spell, 'dir': 'requires'}
+                if spell == ['X']:
+                    yield {'kind': 'b', 'assign': list(assign), 'scope': scope, 'spell': spell, 'nested': True}
+                    yield {'kind': 'b', 'assign': list(assign), 'scope': scope, 'spell': spell, 'nested': True,
+                           'dir': 'requires'}
+                    yield {'kind': 'b', 'assign': list(assign), 'scope': scope, 'spell': spell, 'nested': True, 'mc': True}
                 yield {'kind': 'b', 'assign': list(assign), 'scope': scope, 'spell': spell, 'mc': True}
                 if scope == ['A', 'B']:
                     yield {'kind': 'b', 'assign': list(assign), 'scope': scope, 'spell': spell, 'sem': 'STS'}
